@@ -1,5 +1,16 @@
 //! Service implementation for adaptive concurrency limiting.
 
+#[cfg(feature = "verif-hooks")]
+#[allow(unused_imports)]
+mod std {
+    pub use ::std::*;
+    pub mod sync {
+        pub use ::std::sync::*;
+        pub mod atomic {
+            pub use ::tower_resilience_core::verif::atomic::*;
+        }
+    }
+}
 use crate::ConcurrencyAlgorithm;
 use std::future::Future;
 use std::pin::Pin;
